@@ -190,16 +190,7 @@ func (x *SExec) doCleaner(i int, op SOp) *Fail {
 			}
 			x.Labels["cleaner:removed-a-snapshot"]++
 		}
-		// live data and every retained user snapshot unchanged
-		buf := make([]byte, size)
-		if _, err := nd.S.ReadAt(buf, 0); err != nil {
-			return sfail("cleaner|live-unreadable", err.Error(), "C11")
-		}
-		if d := x.Live.Diff(buf, 0); d != "" {
-			if !x.subBlockHit(j, buf, 0) {
-				return sfail("cleaner|live-image-changed", fmt.Sprintf("n%d after the cleaner removed %v: %s", j, gone, d), "C11")
-			}
-		}
+		// every retained user snapshot, then the live data, unchanged
 		for name, img := range x.snapImg {
 			d := snapDisk(name)
 			if x.snapMarked[name] != "" {
@@ -223,12 +214,22 @@ func (x *SExec) doCleaner(i int, op SOp) *Fail {
 			}
 			x.Labels["cleaner:snapshot-compared"]++
 		}
+		buf := make([]byte, size)
+		if _, err := nd.S.ReadAt(buf, 0); err != nil {
+			return sfail("cleaner|live-unreadable", err.Error(), "C11")
+		}
+		if d := x.Live.Diff(buf, 0); d != "" {
+			if !x.subBlockHit(j, buf, 0) {
+				return sfail("cleaner|live-image-changed", fmt.Sprintf("n%d after the cleaner removed %v: %s", j, gone, d), "C11")
+			}
+		}
 	}
 	return invalid
 }
 
 func genCleanerProgram(t *rapid.T) SProgram {
-	rf := rapid.SampledFrom([]int{1, 2, 2, 3}).Draw(t, "rf")
+	// (RF 1 never records a checkpoint - there is no promotion - so its cleaner never acts: one case in ten)
+	rf := rapid.SampledFrom([]int{2, 2, 2, 2, 3, 3, 3, 3, 3, 1}).Draw(t, "rf")
 	blocks := 12
 	total := int64(blocks) * 8
 	p := SProgram{RF: rf, Nodes: rf, Blocks: blocks, Init: rf}
@@ -241,7 +242,8 @@ func genCleanerProgram(t *rapid.T) SProgram {
 		for k := rapid.IntRange(2, 7).Draw(t, "n"); k > 0; k-- {
 			switch rapid.IntRange(0, 5).Draw(t, "k") {
 			case 0, 1:
-				p.Ops = append(p.Ops, SOp{K: "snapshot", Name: fmt.Sprintf("u%d", nsnap)})
+				// (a write first: every snapshot holds data of its own, so its removal without a merge shows)
+				p.Ops = append(p.Ops, wr(), SOp{K: "snapshot", Name: fmt.Sprintf("u%d", nsnap)})
 				nsnap++
 			case 2:
 				if nsnap > 0 {
@@ -258,15 +260,19 @@ func genCleanerProgram(t *rapid.T) SProgram {
 	if rf > 1 {
 		// replicas leave, come back and are rebuilt: automatic snapshots enter the
 		// chain and the promotion that completes the set records the checkpoint
-		for c := rapid.IntRange(1, 3).Draw(t, "cycles"); c > 0; c-- {
+		for c := rapid.IntRange(2, 3).Draw(t, "cycles"); c > 0; c-- {
 			n := rapid.IntRange(0, rf-1).Draw(t, "node")
-			p.Ops = append(p.Ops, SOp{K: rapid.SampledFrom([]string{"remove", "nodedrop"}).Draw(t, "leave"), Node: n})
+			// (a write first: the automatic snapshot taken when the replica is added back then holds data of its own)
+			p.Ops = append(p.Ops, wr(), SOp{K: rapid.SampledFrom([]string{"remove", "nodedrop"}).Draw(t, "leave"), Node: n})
 			if rf > 2 && rapid.Bool().Draw(t, "awaywrite") {
 				p.Ops = append(p.Ops, wr())
 			}
 			p.Ops = append(p.Ops, SOp{K: "reconnect", Node: n}, SOp{K: "add", Node: n}, SOp{K: "promote", Node: n})
 			round()
 		}
+		// a user snapshot above everything the cleaner may take: it reads through those snapshots
+		p.Ops = append(p.Ops, wr(), SOp{K: "snapshot", Name: fmt.Sprintf("u%d", nsnap)}, wr())
+		nsnap++
 	} else {
 		round()
 	}
